@@ -15,11 +15,12 @@ func main() {
 	verbose := flag.Bool("v", false, "verbose")
 	runs := flag.Int("runs", 30, "random recorded runs")
 	ticks := flag.Int("ticks", 60, "ticks per random run")
+	inject := flag.Int("inject", 150, "state-injection cases")
 	outDir := flag.String("outdir", ".", "output directory")
 	_ = flag.String("replay", "", "replay file (cases regenerate deterministically from the seed)")
 	flag.Parse()
 	if *scenario == "" {
-		checkMode(*runs, *ticks, *outDir)
+		checkMode(*runs, *ticks, *inject, *outDir)
 		return
 	}
 	switch *scenario {
@@ -68,7 +69,8 @@ type stats struct {
 }
 
 // checkMode: the scripted attack schedules (a fork is reported directly) and the recorded random runs (replayed on the model)
-func checkMode(runs, ticks int, outDir string) {
+func checkMode(runs, ticks, inject int, outDir string) {
+	sim.RegisterKeys(16)
 	st := &stats{Strategy: map[string]int{}, Scenarios: map[string]string{}}
 	type sc struct {
 		name string
@@ -110,5 +112,17 @@ func checkMode(runs, ticks int, outDir string) {
 		}
 	}
 	cw.Close(st)
-	fmt.Printf("c01: %d recorded runs (%d with commits), %d actions, %d commits observed, strategies %v; scripted scenarios %v\n", st.Cases, st.Distinct, st.Actions, st.Commits, st.Strategy, st.Scenarios)
+	cw2 := &sim.CaseWriter{OutDir: outDir, Name: "c01inj", Imports: "From V Require Import U64 Extracted Bft BftNet BftCheck.", CaseType: "bft_case", MFun: "bft_mismatches", VFun: "bft_violations", PerShard: 75}
+	phases := map[string]int{}
+	for i := 0; i < inject; i++ {
+		lit, meta := injectCase(r.Fork())
+		cw2.Add(lit, meta)
+		st.Cases++
+		st.Distinct++
+		phases[meta["phase"].(string)]++
+	}
+	cw2.Close(st)
+	st.Strategy["state-injection"] = inject
+	fmt.Printf("c01: %d state-injection cases by phase %v; ", inject, phases)
+	fmt.Printf("%d recorded runs (%d with commits), %d actions, %d commits observed, strategies %v; scripted scenarios %v\n", st.Cases, st.Distinct, st.Actions, st.Commits, st.Strategy, st.Scenarios)
 }
